@@ -121,7 +121,7 @@ func (m *obsMetrics) SetIsLeader(v float64, _ prometheus.Labels) {
 	prev := o.gaugeSet && o.gauge == 1
 	o.gauge, o.gaugeSet = v, true
 	val := v == 1
-	ev := &ClaimEvt{Inst: o.in.idx, Gen: o.gen, Val: val, Edge: val != prev, T: now, Step: d.step, Stack: stack, Token: tok}
+	ev := &ClaimEvt{Ord: d.h.nextOrd(), Inst: o.in.idx, Gen: o.gen, Val: val, Edge: val != prev, T: now, Step: d.step, Stack: stack, Token: tok}
 	if val != isL {
 		d.h.violate("C18", "gauge-differs-from-flag-in-critical-section/"+stack, fmt.Sprintf("SetIsLeader(%v) while IsLeader()=%v", v, isL), now, d.step)
 	}
@@ -220,7 +220,7 @@ func (s *scriptHealth) Check(ctx context.Context) bool {
 	if t, ok := ctx.Deadline(); ok {
 		dl = t.Sub(d.start) - now
 	}
-	d.h.Health = append(d.h.Health, &HealthEvt{Inst: in.idx, Gen: o.gen, T: now, Step: d.step, Result: r, Deadline: dl, Tick: o.healthTick})
+	d.h.Health = append(d.h.Health, &HealthEvt{Ord: d.h.nextOrd(), Inst: in.idx, Gen: o.gen, T: now, Step: d.step, Result: r, Deadline: dl, Tick: o.healthTick})
 	d.logf("health i%d.%d %c dl=%d", in.idx, o.gen, r, int64(dl))
 	d.mu.Unlock()
 	switch r {
@@ -240,14 +240,14 @@ func (o *elObj) onPromote(ctx context.Context, token string) {
 	d.mu.Lock()
 	o.promotes++
 	term := o.promotes
-	d.h.Cbs = append(d.h.Cbs, &CbEvt{Inst: in.idx, Gen: o.gen, Kind: "promote_enter", Token: token, Term: term, T: d.now(), Step: d.step, IsLeader: isL})
+	d.h.Cbs = append(d.h.Cbs, &CbEvt{Ord: d.h.nextOrd(), Inst: in.idx, Gen: o.gen, Kind: "promote_enter", Token: token, Term: term, T: d.now(), Step: d.step, IsLeader: isL})
 	d.logf("cb i%d.%d promote_enter term=%d tok=%s", in.idx, o.gen, term, short(token))
 	d.mu.Unlock()
 	// watcher for the context's Done
 	go func() {
 		<-ctx.Done()
 		d.mu.Lock()
-		d.h.Cbs = append(d.h.Cbs, &CbEvt{Inst: in.idx, Gen: o.gen, Kind: "ctx_done", Token: token, Term: term, T: d.now(), Step: d.step, IsLeader: o.el.IsLeader()})
+		d.h.Cbs = append(d.h.Cbs, &CbEvt{Ord: d.h.nextOrd(), Inst: in.idx, Gen: o.gen, Kind: "ctx_done", Token: token, Term: term, T: d.now(), Step: d.step, IsLeader: o.el.IsLeader()})
 		d.logf("cb i%d.%d ctx_done term=%d", in.idx, o.gen, term)
 		d.mu.Unlock()
 	}()
@@ -261,7 +261,7 @@ func (o *elObj) onPromote(ctx context.Context, token string) {
 		}
 	}
 	d.mu.Lock()
-	d.h.Cbs = append(d.h.Cbs, &CbEvt{Inst: in.idx, Gen: o.gen, Kind: "promote_exit", Token: token, Term: term, T: d.now(), Step: d.step})
+	d.h.Cbs = append(d.h.Cbs, &CbEvt{Ord: d.h.nextOrd(), Inst: in.idx, Gen: o.gen, Kind: "promote_exit", Token: token, Term: term, T: d.now(), Step: d.step})
 	d.logf("cb i%d.%d promote_exit term=%d", in.idx, o.gen, term)
 	d.mu.Unlock()
 }
@@ -273,7 +273,7 @@ func (o *elObj) onDemote() {
 	d.mu.Lock()
 	o.demotes++
 	o.inDemote++
-	d.h.Cbs = append(d.h.Cbs, &CbEvt{Inst: in.idx, Gen: o.gen, Kind: "demote_enter", Token: stack, Term: o.demotes, T: d.now(), Step: d.step})
+	d.h.Cbs = append(d.h.Cbs, &CbEvt{Ord: d.h.nextOrd(), Inst: in.idx, Gen: o.gen, Kind: "demote_enter", Token: stack, Term: o.demotes, T: d.now(), Step: d.step})
 	d.logf("cb i%d.%d demote_enter n=%d by=%s", in.idx, o.gen, o.demotes, stack)
 	d.mu.Unlock()
 	if in.cfg.DemoteDur > 0 {
@@ -281,7 +281,7 @@ func (o *elObj) onDemote() {
 	}
 	d.mu.Lock()
 	o.inDemote--
-	d.h.Cbs = append(d.h.Cbs, &CbEvt{Inst: in.idx, Gen: o.gen, Kind: "demote_exit", Term: o.demotes, T: d.now(), Step: d.step})
+	d.h.Cbs = append(d.h.Cbs, &CbEvt{Ord: d.h.nextOrd(), Inst: in.idx, Gen: o.gen, Kind: "demote_exit", Term: o.demotes, T: d.now(), Step: d.step})
 	d.mu.Unlock()
 }
 
